@@ -16,7 +16,7 @@ Statement: {p['statement']}
 It quantifies over: {p['quantifier']['text']}
 Code it is anchored in: {', '.join(p['anchors']['files'])}
 
-Deliver, in /tmp/harm-{pid}-out/ , up to THREE different rewrites (each produced starting again from the clean tree), numbered k = 1, 2, 3:
+Deliver, in /tmp/harm-{pid}-out/ , up to THREE different rewrites (each produced starting again from the clean tree, at different code sites and of different kinds — prefer less obvious sites: helper functions shared by several operations, in-place and alias variants, error and None paths, iterator and trait-impl plumbing), numbered k = 1, 2, 3:
  - patch<k>.diff : `git diff -- src` of the change (relative to the clean worktree),
  - demo<k>.rs : a small self-contained integration test (placed at tests/harm_demo.rs, run with `cargo test --offline --test harm_demo`) using only the public API that (i) asserts the property's relevant clauses on a few non-trivial inputs — it must PASS on BOTH trees — and (ii) contains one test named `observable_difference` that prints (with `println!` and `--nocapture`) the value that differs between the two trees (do not assert on it),
  - notes<k>.md : what the change is, what observable behaviour differs, and the clause-by-clause argument that the property still holds.
